@@ -145,6 +145,11 @@ class FullDecider(MaxDepthDecider):
 class PositionIndependentGrowDecider(MaxDepthDecider):
     """PositionIndependentGrowDecider will always randomly expand one path of the tree to get to the max depth, and others randomly."""
 
+    def __init__(self, random: RandomSource, grammar: Grammar, max_depth: int = 10):
+        super().__init__(random, grammar, max_depth)
+        # With a concrete starting symbol the first choice of a tree is not made at expansions == 0.
+        self.expanding = True
+
     def choose_production_alternatives(self, ty: type, alternatives: list[type], ctx: LocalSynthesisContext) -> type:
         assert len(alternatives) > 0, "No alternatives presented"
 
